@@ -68,10 +68,11 @@ const (
 	oPanicNil = 3 // write marker, nil pointer dereference (runtime.Error)
 	oPanicIdx = 4 // write marker, index out of range (runtime.Error)
 	oOOG      = 5 // write marker, then a store write under an exhausted gas meter (storetypes.ErrorOutOfGas)
-	nOutcomes = 6
+	oGasOvf   = 6 // write marker, then a gas-counter overflow (storetypes.ErrorGasOverflow): the other out-of-gas condition
+	nOutcomes = 7
 )
 
-var outcomeNames = []string{"ok", "err", "panic_str", "panic_nil", "panic_idx", "oog"}
+var outcomeNames = []string{"ok", "err", "panic_str", "panic_nil", "panic_idx", "oog", "gas_overflow"}
 
 // Dev is one deviation from the all-ok behaviour: at block Block (1-based), when timer Timer sends signal
 // Kind, subscriber Sub behaves as Out.
@@ -255,6 +256,11 @@ func (w *World) signal(ctx sdk.Context, sub, kind int, id string, n int64) error
 	case oOOG:
 		// a genuine out-of-gas from the store layer: one more write, metered by a 1-gas meter
 		ctx.WithGasMeter(storetypes.NewGasMeter(1)).KVStore(w.markKey).Set(cntKeys[sub], encCnt(inv.SeenOwnCnt+2))
+	case oGasOvf:
+		// a genuine overflow of the consumed-gas counter of an (infinite) gas meter
+		gm := storetypes.NewInfiniteGasMeter()
+		gm.ConsumeGas(^uint64(0), "verif")
+		gm.ConsumeGas(2, "verif")
 	}
 	return nil
 }
